@@ -26,6 +26,7 @@ STD_DISCR = {
     'core::option::Option': {'None': 0, 'Some': 1},
     'core::result::Result': {'Ok': 0, 'Err': 1},
     'core::ops::control_flow::ControlFlow': {'Continue': 0, 'Break': 1},
+    'core::cmp::Ordering': {'Less': 255, 'Equal': 0, 'Greater': 1},      # i8 -1/0/1 as the switch sees them
 }
 
 
